@@ -73,4 +73,4 @@ Record int_exact (N : numops) : Prop := IntExact {
       n_binop N OSub CInteger (num_of_Z a) (num_of_Z b) = Ok (num_of_Z (a - b));
   ie_fmod : forall a k, 0 <= a -> 0 < k ->
       n_binop N OFmod CInteger (num_of_Z a) (num_of_Z k) = Ok (num_of_Z (a mod k));
-  ie_cmp : forall a b, n_cmp N (num_of_Z a) (num_of_Z b) = Some (a ?= b) }.
+  ie_cmp : forall a b, 0 <= a -> 0 <= b -> n_cmp N (num_of_Z a) (num_of_Z b) = Some (a ?= b) }.
